@@ -51,20 +51,20 @@ package subscription
 //@ func subscriptionCancellations.AddWithParent
 //@   requires sc != nil && !held(sc.mu) && !rheld(sc.mu)
 //@   ensures !held(sc.mu) && !rheld(sc.mu)
-//@   modifies *
+//@   modifies sc.cancellations, allmaps(sc.cancellations), global(ext)
 //@   safety no-nilmap
 //@ func subscriptionCancellations.Cancel
 //@   requires sc != nil && !held(sc.mu) && !rheld(sc.mu)
 //@   ensures !held(sc.mu) && !rheld(sc.mu)
-//@   modifies *
+//@   modifies allmaps(sc.cancellations), global(ext)
 //@ func subscriptionCancellations.CancelAll
 //@   requires sc != nil && !held(sc.mu) && !rheld(sc.mu)
 //@   ensures !held(sc.mu) && !rheld(sc.mu)
-//@   modifies *
+//@   modifies global(ext)
 //@ func subscriptionCancellations.Len
 //@   requires sc != nil && !held(sc.mu) && !rheld(sc.mu)
 //@   ensures !held(sc.mu) && !rheld(sc.mu)
-//@   modifies *
+//@   pure
 //@ func ExecutorEngine.TerminateAllSubscriptions
 //@   requires e != nil && !held(e.subCancellations.mu) && !rheld(e.subCancellations.mu)
 //@   modifies *, count(emitted), count(terminalEmitted)
@@ -82,7 +82,7 @@ package subscription
 //@   safety no-typeassert
 
 //@ func ExecutorEngine.checkForDuplicateSubscriberID
-//@   requires e != nil
+//@   requires e != nil && !held(e.subCancellations.mu) && !rheld(e.subCancellations.mu)
 //@   assumes {package.level.error.value.is.initialised} ErrSubscriberIDAlreadyExists != nil
 //@   ghost var g_failed bool = false
 //@   at call subscriptionCancellations.AddWithParent: ghost g_failed = result1 != nil
@@ -91,7 +91,7 @@ package subscription
 //@   modifies *, count(emitted), count(terminalEmitted)
 
 //@ func ExecutorEngine.StartOperation
-//@   requires e != nil
+//@   requires e != nil && !held(e.subCancellations.mu) && !rheld(e.subCancellations.mu)
 //@   at call ExecutorEngine.startSubscription: assert {no.executor.is.started.for.a.duplicate.id} g_dupChecked && !g_dup
 //@   at call ExecutorEngine.handleNonSubscriptionOperation: assert {no.executor.is.started.for.a.duplicate.id} g_dupChecked && !g_dup
 //@   ghost var g_dupChecked bool = false
